@@ -425,8 +425,13 @@ class MailboxSet(MailboxSetInterface[MailboxData]):
                 raise KeyError(before)
             elif after_entry is not None:
                 raise ValueError(after)
+        if before == 'INBOX':
+            # moves the messages only, inferior names of INBOX are unaffected
+            renames = [(before, after)]
+        else:
+            renames = list(tree.get_renames(before, after))
         async with self._set_lock.write_lock():
-            for before_name, after_name in tree.get_renames(before, after):
+            for before_name, after_name in renames:
                 if before_name == 'INBOX':
                     self._set[after_name] = self._inbox
                     self._inbox = MailboxData(
